@@ -375,20 +375,21 @@ Definition means_ok (exact : bool) (names : list string) (o : dict) (w : option 
     slack [tol_mean] because the code accumulates the weights in binary64 *)
 Definition wlt (q : Qc) (x w : list Qc) : Qc := sumq (map2 (fun xi wi => if qltb xi q then wi else 0) x w).
 Definition wle (q : Qc) (x w : list Qc) : Qc := sumq (map2 (fun xi wi => if qleb xi q then wi else 0) x w).
-Definition quantile_ok (col : list Qc) (w : list Qc) (alpha : Qc) (q : Qc) : bool :=
+Definition quantile_ok (exact : bool) (col : list Qc) (w : list Qc) (alpha : Qc) (q : Qc) : bool :=
   existsb (qeqb q) col
   && (if qeqb alpha 0 then forallb (qleb q) col
       else let tot := sumq w in
-           Qle_bool (this (wlt q col w / tot)) (this alpha + tol_mean)%Q
-           && Qle_bool (this alpha) (this (wle q col w / tot) + tol_mean)%Q).
+           if exact then qltb (wlt q col w / tot) alpha && qleb alpha (wle q col w / tot)
+           else Qle_bool (this (wlt q col w / tot)) (this alpha + tol_mean)%Q
+                && Qle_bool (this alpha) (this (wle q col w / tot) + tol_mean)%Q).
 
-Definition quants_ok (names : list string) (o : dict) (w : option (list Qc)) (q : qobs) : bool :=
+Definition quants_ok (exact : bool) (names : list string) (o : dict) (w : option (list Qc)) (q : qobs) : bool :=
   (length (snd q) =? length names)%nat
   && forallb (fun j =>
        match lookup (nth j names EmptyString) o, nth_error (snd q) j with
        | Some col, Some (k, v) =>
            String.eqb k (nth j names EmptyString)
-           && quantile_ok col (match w with None => repeat 1 (length col) | Some w => w end) (Q2Qc (fst q)) (Q2Qc v)
+           && quantile_ok exact col (match w with None => repeat 1 (length col) | Some w => w end) (Q2Qc (fst q)) (Q2Qc v)
        | _, _ => false
        end) (seq 0 (length names)).
 
@@ -417,7 +418,7 @@ Definition ok (c : case) : bool :=
       (if nodupb names then
          match i_array with Some arr => array_ok names o arr && opt_nat_eqb i_n (Some (length arr)) | None => true end
          && match i_means with Some ms => means_ok exact names o w' ms | None => true end
-         && forallb (quants_ok names o w') i_quant
+         && forallb (quants_ok exact names o w') i_quant
        else true)
   | CBolfi names k chains warmup i_n i_array i_means =>
       let ch := map (map cQ) chains in
@@ -435,6 +436,7 @@ Definition ok (c : case) : bool :=
       let ch := map cQ chains in
       (* textbook value, and invariance of the implementation's own answers *)
       close tol_diag (sp_rhat2 ch) (i_rhat * i_rhat)%Q
+      && close tol_diag (ess ch) i_ess        (* [ess] is the formula itself: C16_ess_formula *)
       && closeq tol_diag i_rhat_aff i_rhat && closeq tol_diag i_ess_aff i_ess
       && closeq tol_diag i_rhat_perm i_rhat && closeq tol_diag i_ess_perm i_ess
   end.
